@@ -42,7 +42,7 @@ def run_one(params: dict, chooser, deviations=True) -> dict:
     calls = params['calls']          # list of 'tRa' = track REQUESTED a, 'uFb' = untrack FRIEND b
     script = params['script']        # answers per AddUser attempt (all users), last one repeats
     horizon = params.get('horizon', 80.0)
-    world = World(chooser=chooser, horizon=horizon, deviations=False, op_anywhere=True)
+    world = World(chooser=chooser, horizon=horizon, deviations=False, op_anywhere=True, slowcpu=True)
     violations: list[Violation] = []
     sigs = set()
 
@@ -250,6 +250,9 @@ def run_one(params: dict, chooser, deviations=True) -> dict:
                 if adds_u and ref:
                     last_eff = effective(len(adds_u) - 1, user)
                     need = {'silence': 20.0, 'notexists': 600.0, 'ambiguous': 20.0}.get(last_eff)
+                    tracked_now = users.get_tracking_state(user) == TrackingState.TRACKED
+                    if last_eff == 'ambiguous' and tracked_now:
+                        need = None     # the answer that fell on the very instant of the time-out was accepted
                     if need is not None and adds_u[-1][0] + need + 1.0 < world.now():
                         add('retry-missing', f"user {user}: attempt at t={adds_u[-1][0]} amounted to '{last_eff}', "
                             f"reasons {sorted(ref)} remain, no retry by t={world.now()}", f'C15:retry-missing:{last_eff}')
